@@ -114,3 +114,98 @@ def case_term(c, cfgterm):
     term = "(%s, %s, %d%%N, %s, %s, %s, %s)" % (cfgterm, clist(moves), c["tdone"], clist(outs["client"]),
                                               clist(outs["server"]), cbool(ce), cbool(se))
     return term, dup_skipped
+
+
+# ---------------------------------------------------------------- shared by c02.py / c17.py / c13.py
+
+GIMPORTS = "From DtlsV Require Import Gen.Generated Gen.GeneratedFlights Hs.Abs12 Hs.Abs12Run."
+
+
+def gcfg(c):
+    return "(retime g_cfg_%s %d%%N %s)" % (c["variant"].replace("-", "_"), c["interval_ms"],
+                                         "false" if c["no_backoff"] else "true")
+
+
+def established(c):
+    return c["cdone"] and c["sdone"] and c["cerr"] == "ok" and c["serr"] == "ok"
+
+
+def timer_groups(c, side):
+    """virtual times of timer-caused emission groups of `side`, with the number of deliveries to
+    `side` seen so far at each"""
+    out = []
+    ndel = 0
+    for e in c["events"]:
+        if e["ev"] == "deliver" and e["side"] == side:
+            ndel += 1
+        elif e["ev"] == "emit" and e["side"] == side and e["cause"] == "timer":
+            if not out or out[-1][0] != e["t"]:
+                out.append((e["t"], ndel))
+    return out
+
+
+def monitor_liveness(c):
+    if not established(c):
+        return "handshake did not complete: client=%s server=%s after %d ms" % (
+            c["cerr"] if c["cdone"] else "pending", c["serr"] if c["sdone"] else "pending", c["tdone"])
+    if not c["data_ok"]:
+        return "handshake completed but application data does not flow both ways"
+    start = max(c["tfault"], c.get("silence_until", 0))
+    if c["tdone"] - start > 6 * 60000 + 1000:
+        return "completion took %d ms after the last fault (bound 6 x 60 s)" % (c["tdone"] - start)
+    return None
+
+
+def monitor_discipline(c):
+    I = c["interval_ms"]
+    for e in c["events"]:
+        if e["ev"] == "emit" and e["cause"] == "timer" and e["t"] > 0:
+            if any(r["ct"] in (22, 25) and r["e"] == 0 and r["ht"] == 3 for r in e["recs"]):
+                return "HelloVerifyRequest sent by the retransmission timer at %d ms" % e["t"]
+    for side in ("client", "server"):
+        g = timer_groups(c, side)
+        for (t0, d0), (t1, d1), (t2, d2) in zip(g, g[1:], g[2:]):
+            if d0 == d1 == d2 and t0 > 0:
+                g1, g2 = t1 - t0, t2 - t1
+                want = g1 if c["no_backoff"] else min(2 * g1, 60000)
+                if g2 != want:
+                    return "%s retransmission gaps %d ms then %d ms (expected %d) with no input in between" % (
+                        side, g1, g2, want)
+                if g2 > 60000:
+                    return "%s retransmission interval %d ms above the 60 s cap" % (side, g2)
+        nem = sum(1 for e in c["events"] if e["ev"] == "emit" and e["side"] == side)
+        ndel = sum(1 for e in c["events"] if e["ev"] == "deliver" and e["side"] == side)
+        maxfl = 1
+        run = 0
+        last = None
+        for e in c["events"]:
+            if e["ev"] == "emit" and e["side"] == side:
+                run = run + 1 if last == "emit" else 1
+                maxfl = max(maxfl, run)
+                last = "emit"
+            elif e["ev"] != "emit" or e["side"] != side:
+                last = None if e["ev"] in ("deliver", "drop") else last
+        # bound with the largest flight of a fault-free run (<= 8 datagrams in every variant used)
+        if nem > 8 * (len(g) + ndel + 1):
+            return "%s emitted %d datagrams for %d timer expiries and %d received datagrams" % (side, nem, len(g), ndel)
+    return None
+
+
+def accept(chk, name, cases, shard=40):
+    """replay every trace through the Coq model; returns list of mismatching indices or None"""
+    import vlib
+    terms = [case_term(c, gcfg(c))[0] for c in cases]
+    bad, err = vlib.coq_mismatches(name, GIMPORTS, "c02_case", "c02_ok", terms, shard=shard, scope="nat_scope")
+    if bad is None:
+        chk.broken("correspondence evaluation failed in coqc (Hs/Abs12Run.v c02_ok)", err)
+        return None
+    return bad
+
+
+def slim(c):
+    d = {k: c[k] for k in ("variant", "mask", "interval_ms", "no_backoff", "silence_until", "silence_to",
+                           "cdone", "sdone", "cerr", "serr", "tdone", "tfault", "data_ok")}
+    d["events"] = [{k: e[k] for k in ("ev", "idx", "side", "t") if k in e} |
+                   ({"recs": [(r["ct"], r["e"], r["ht"], r["ms"], r["fo"], r["fl"]) for r in e["recs"]], "cause": e["cause"]}
+                    if e["ev"] == "emit" else {}) for e in c["events"]][:120]
+    return d
